@@ -18,7 +18,8 @@
                            and step V (200-203: rotate(rotation_matrix_y(theta)) then
                            translate((0, 0, z_o)))
      Python / numpy        slice.indices (PySlice_AdjustIndices), indexing of axis 0 with a
-                           list of integers, a slice, a boolean mask, one integer
+                           list of integers, a slice, a boolean mask (of the length of the axis, or
+                           empty), one integer
 
    A raise of the implementation is the error value None. *)
 From Coq Require Import String.
@@ -70,7 +71,14 @@ Fixpoint mask_select {A} (bs : list bool) (l : list A) : list A :=
 
 (* x[elements_idx] for an array whose axis 0 has the entries l, when the result keeps an
    axis 0 (None = IndexError / ValueError, and for IdxInt: the indexed object is no longer
-   a sequence of elements, Probe.__init__ fails on len()) *)
+   a sequence of elements, Probe.__init__ fails on len()).
+   Boolean mask: numpy (rule established by experiment on numpy 2.5.3, axes of length
+   0..5 against masks of length 0..6, all-False and all-True, 1-d and 2-d arrays) accepts
+   a mask of the length of the axis, and ALSO a mask of length 0 on an axis of any length,
+   which selects nothing (`np.arange(5)[np.array([], dtype=bool)]` is empty); every other
+   length is an IndexError (no broadcasting of a one-entry mask).  mask_select [] l = [], so one expression covers both accepted lengths.
+   (An empty Python LIST `[]` is an integer index array, IdxList []: nothing selected.) *)
+Definition mask_fits (m n : nat) : bool := Nat.eqb m n || Nat.eqb m 0.
 Definition np_take {A} (idx : np_idx) (l : list A) : option (list A) :=
   match idx with
   | IdxInt _ => None
@@ -80,7 +88,7 @@ Definition np_take {A} (idx : np_idx) (l : list A) : option (list A) :=
       | None => None
       | Some ks => opt_all (map (py_index l) ks)
       end
-  | IdxMask bs => if Nat.eqb (length bs) (length l) then Some (mask_select bs l) else None
+  | IdxMask bs => if mask_fits (length bs) (length l) then Some (mask_select bs l) else None
   end.
 
 (* ---- the metadata dictionary ----------------------------------------------------------- *)
